@@ -8,6 +8,7 @@
 #[allow(unused_imports)]
 use cglue::trait_group;
 mod defs;
+mod lt;
 
 use cglue::arc::CArc;
 use cglue::boxed::{CBox, CSliceBox};
@@ -684,6 +685,23 @@ impl HistSut for Sut {
     }
 }
 
+/// one operation sequence of the lifetime-bounded-children section, inside its own allocation window
+fn lt_case(ops: &[u8]) -> CaseOut {
+    alloc::begin();
+    let r = std::panic::catch_unwind(|| lt::run_seq(ops));
+    let rep = alloc::end();
+    match r {
+        Err(_) => CaseOut::bad("panic", "panicked".to_string()),
+        Ok(out) => {
+            if out.violation.is_none() && !rep.clean() {
+                CaseOut::bad(format!("alloc:{}", rep.signature()), rep.describe())
+            } else {
+                out
+            }
+        }
+    }
+}
+
 /// Does a borrowed wrapped child leak a context clone on this tree? (DESIGN 5.1)
 fn probe_leak() -> Option<String> {
     let strict = Sut { max_pool: 2, leak_mode: false, with_plain_boxes: false };
@@ -807,6 +825,10 @@ fn main() {
                 let pre: Vec<u8> = serde_json::from_value(case["pre"].clone()).unwrap();
                 return consume_last(&pre, case["kind"].as_u64().unwrap() as u8);
             }
+            if case.get("lt_ops").is_some() {
+                let ops: Vec<u8> = serde_json::from_value(case["lt_ops"].clone()).unwrap();
+                return lt_case(&ops);
+            }
             if case.get("last_holder").is_some() {
                 return last_holder_drop(case["last_holder"].as_u64().unwrap() as u8);
             }
@@ -853,6 +875,32 @@ fn main() {
             };
             cx.rule("histories_bfs", &format!("same alphabet, pool <= {}, BFS to depth {} with dedup on the sorted multiset of object kinds/typestates (+ whether a borrowed-child call happened)", pool, depth));
             hist::bfs(&Sut { max_pool: pool, leak_mode: leak.is_some(), with_plain_boxes: !c07 }, depth, cx, "histories_bfs", 400_000);
+        }),
+        replay: mk_replay(),
+    });
+    sections.push(Section {
+        name: "lifetime_children",
+        explore: Box::new(|cx: &Cx| {
+            let depth = cx.tier.pick(5, 7);
+            cx.rule("lifetime_children", &format!("one boxed parent with a CArc context whose wrapped associated types are bounded by the trait's lifetime parameter (`type View: Leaf + 'a`, getters taking &'a self): every sequence of <= {} operations {{owned child object, owned child group, Result<child> Ok, Result<child> Err, drop oldest child, drop newest child, use all children, call the parent}} with <= {} live children; oracle after every step: context count == 1 retained + parent + live children, every child answers with its own value, nothing destroyed early; teardown: children, parent, then the retained Arc: count back to 1, every payload destroyed exactly once, allocator balanced", depth, lt::MAX_KIDS));
+            // depth-first enumeration of the enabled sequences
+            fn rec(cx: &Cx, seq: &mut Vec<u8>, live: usize, depth: usize) {
+                let case = json!({"lt_ops": seq, "names": seq.iter().map(|o| lt::OP_NAMES[*o as usize]).collect::<Vec<_>>()});
+                cx.eval("lifetime_children", &case, || lt_case(seq));
+                if seq.len() == depth {
+                    return;
+                }
+                for op in 0..lt::NOPS {
+                    if !lt::enabled(op, live) {
+                        continue;
+                    }
+                    let nl = match op { 0 | 1 | 2 => live + 1, 4 | 5 => live - 1, _ => live };
+                    seq.push(op);
+                    rec(cx, seq, nl, depth);
+                    seq.pop();
+                }
+            }
+            rec(cx, &mut Vec::new(), 0, depth);
         }),
         replay: mk_replay(),
     });
